@@ -30,7 +30,10 @@ RULE = ("Hypothesis RuleBasedStateMachine: one generated file (C04 shapes: multi
         ' Every index / slice / window result is also compared in REPRESENTATION (container type, dtype with byte '
         'order, shape) with the same request on a freshly opened file, and arrays returned earlier are re-checked at '
         'the end of the history: later operations must not change them.'
-        ' File-level iterators may be inspected one step late (chunk k looked at after chunk k+1 was requested).')
+        ' File-level iterators may be inspected one step late (chunk k looked at after chunk k+1 was requested).'
+        ' Model-free jobs compare every operation of a short history with the same operation on a freshly opened file '
+        '(files with an incomplete final chunk, scaled channels) and read delivered chunk objects repeatedly (every '
+        'scale type x 3 raw types).')
 ASSUMPTIONS = [
     "single-threaded histories only (documented: open files are not thread-safe)",
     "canonical chunk sequences come from a fresh TdmsFile.open of the same bytes and are themselves checked against the "
